@@ -11,6 +11,7 @@
 //	skip  the same inputs with a random mode per call: Decode(&Raw) (= nextValueBytes)
 //	      or Decode(&interface{}), incl. later values that reference symbols defined in
 //	      skipped ones (model: skip_value); struct-with-unknown-field oracle (F11-1)
+//	typed boundary scalars read back through DecodeInt64/Uint64/Float64/Bool/String/Bytes/Time
 //	first all 256 first bytes x fixed tails, both modes
 //	deep  deep nesting in a subprocess with debug.SetMaxStack(64<<20)
 //	regr  replay inputs of the repaired findings (FWbinc-1/2/3, F11-1, F14-1, F14-3, F02-1)
@@ -894,6 +895,70 @@ func hostileStream(c *ctxT, stream string, inputs [][]byte) {
 	}
 }
 
+
+// ---------- stream typed: scalar items through the typed driver calls ----------
+
+// typedStream encodes boundary scalars and reads them back with the typed decode
+// calls (DecodeInt64, DecodeUint64, DecodeFloat64/32, DecodeBool, DecodeStringAsBytes,
+// DecodeBytes, DecodeTime) instead of DecodeNaked: direct oracle only.
+func typedStream(c *ctxT, n int) {
+	r := c.r
+	h := &codec.BincHandle{}
+	for i := 0; i < n; i++ {
+		it := randScalar(r, false)
+		var out []byte
+		if err := codec.NewEncoderBytes(&out, h).Encode(it.goValue()); err != nil {
+			continue
+		}
+		d := codec.NewDecoderBytes(out, h)
+		ok := true
+		var err error
+		switch it.k {
+		case kBool:
+			var v bool
+			err = d.Decode(&v)
+			ok = v == it.b
+		case kInt:
+			var v int64
+			err = d.Decode(&v)
+			ok = v == it.i
+		case kUint:
+			var v uint64
+			err = d.Decode(&v)
+			ok = v == it.u
+		case kF32:
+			var v float32
+			err = d.Decode(&v)
+			w := math.Float32frombits(uint32(it.u))
+			ok = v == w || (v != v && w != w)
+		case kF64:
+			var v float64
+			err = d.Decode(&v)
+			w := math.Float64frombits(it.u)
+			ok = v == w || (v != v && w != w)
+		case kStr:
+			var v string
+			err = d.Decode(&v)
+			ok = v == string(it.s)
+		case kBytes:
+			var v []byte
+			err = d.Decode(&v)
+			ok = bytes.Equal(v, it.s)
+		case kTime:
+			var v time.Time
+			err = d.Decode(&v)
+			ok = v.Equal(time.Unix(it.i, int64(it.u)))
+		default:
+			continue
+		}
+		if err != nil || !ok || d.NumBytesRead() != len(out) {
+			c.sum.FailC("typed", "binc:typed-roundtrip", "a scalar written by the Encoder was read back differently by the typed decode call",
+				map[string]interface{}{"format": "binc", "item": it.coq(), "bytes": vh.Hex(out), "err": fmt.Sprint(err)})
+		}
+		c.sum.Count("typed", fmt.Sprintf("typed/%d/%d", it.k, len(out)))
+	}
+}
+
 // ---------- stream first: all 256 first bytes ----------
 
 func firstStream(c *ctxT) {
@@ -1122,7 +1187,7 @@ func main() {
 		return
 	}
 	r := vh.NewRng(vh.SeedFromEnv())
-	sum := vh.NewSummary("enc: random item sequences on one Encoder x (AsSymbols, StringToRaw), bytes vs model enc_seq, then read back on one Decoder twice (all decode; random Decode(&Raw)/decode mix) with the round-trip/extent oracles; dec/skip: mutated encodings and random bytes, 1-3 calls on one Decoder x (MaxDepth, SignedInteger, RawToString), outcome class + canonical tree + NumBytesRead vs model; first: 256 first bytes x 6 tails x {decode, Raw}; deep: 8 nesting shapes in a subprocess; regr: replay inputs of repaired findings. non-trivial = output longer than one byte / distinct by (stream, first descriptor nibble, error class, calls, options, modes)")
+	sum := vh.NewSummary("enc: random item sequences on one Encoder x (AsSymbols, StringToRaw), bytes vs model enc_seq, then read back on one Decoder twice (all decode; random Decode(&Raw)/decode mix) with the round-trip/extent oracles; dec/skip: mutated encodings and random bytes, 1-3 calls on one Decoder x (MaxDepth, SignedInteger, RawToString), outcome class + canonical tree + NumBytesRead vs model; first: 256 first bytes x 6 tails x {decode, Raw}; typed: boundary scalars read back through the typed driver calls (direct oracle); deep: 8 nesting shapes in a subprocess; regr: replay inputs of repaired findings. non-trivial = output longer than one byte / distinct by (stream, first descriptor nibble, error class, calls, options, modes)")
 	c := &ctxT{r: r.Fork(), sum: sum}
 	c.cv = vh.NewCases(*cases, "From Coq Require Import List NArith ZArith.\nFrom Verif Require Import Wire.Item Wire.Binc Wire.BincCorr.\nImport ListNotations.", "case", "mismatches", 60)
 	corpus := encStream(c, *nEnc)
@@ -1147,6 +1212,8 @@ func main() {
 	if *first {
 		firstStream(c)
 	}
+	c.r = r.Fork()
+	typedStream(c, *nEnc*2)
 	regrStream(c)
 	if *deepN > 0 {
 		deepStream(c, *deepN)
